@@ -441,7 +441,7 @@ fn pair_check<const UA: usize, const LA: usize, const UB: usize, const LB: usize
 
 //@ harness: c06_rabin_pair_0_5
 //@ prop: C06
-//@ tier: quick
+//@ tier: experimental
 //@ timeout: 1500
 //@ mem: 24
 //@ unwindset: calculate_out_table#0=64; calculate_out_table#1=258; calculate_mod_table#0=258; modulo#0=64
@@ -459,7 +459,7 @@ pub(crate) fn c06_rabin_pair_0_5() { pair_check::<0, 76, 5, 71, 76, 0>(64, 64, 7
 
 //@ harness: c06_rabin_pair_short_last
 //@ prop: C06
-//@ tier: quick
+//@ tier: experimental
 //@ timeout: 1500
 //@ mem: 24
 //@ unwindset: calculate_out_table#0=64; calculate_out_table#1=258; calculate_mod_table#0=258; modulo#0=64
@@ -489,14 +489,58 @@ pub(crate) fn c06_rabin_pair_short_last() { pair_check::<0, 35, 5, 30, 35, 0>(64
 #[kani::stub(std::io::Read::read_to_end, crate::chunker::rabin::verif_harness::ReadToEndModel::read_to_end)]
 pub(crate) fn c06_rabin_pair_frag() { pair_check::<0, 76, 5, 71, 76, 1>(64, 64, 72); }
 
-//@ harness: c06_rabin_pair_small
-//@ prop: C06X
+// ---- first chunk, production window, std's real read_to_end, unbounded symbolic read fragmentation ----
+pub(crate) struct ProbeReader<const N: usize> { pub data: [u8; N], pub len: usize, pub pos: usize }
+impl<const N: usize> Read for ProbeReader<N> {
+    fn read(&mut self, buf: &mut [u8]) -> io::Result<usize> {
+        let avail = self.len - self.pos;
+        if avail == 0 || buf.is_empty() { return Ok(0); }
+        let max = avail.min(buf.len());
+        let n: usize = kani::any();
+        kani::assume(n >= 1 && n <= max);
+        buf[..n].copy_from_slice(&self.data[self.pos..self.pos + n]);
+        self.pos += n;
+        Ok(n)
+    }
+}
+
+//@ harness: c06_rabin_first_chunk_frag
+//@ prop: C06
 //@ tier: quick
 //@ timeout: 1500
 //@ mem: 24
 //@ unwindset: calculate_out_table#0=64; calculate_out_table#1=258; calculate_mod_table#0=258; modulo#0=64
+//@ kernel: chunker::rabin::ChunkIter::{new,next} with the production 64-byte window, through std's real Read::read_to_end / Take
+//@ bound: polynomial 0x3DA3358B4DC173, (avg,min,max)=(64,64,72); first chunk of a stream of symbolic length 0..=76 with symbolic bytes; EVERY read returns a symbolic count 1..=min(avail, buf) (unbounded symbolic fragmentation); size_hint 0; unwind 80
+//@ oracle: None iff the stream is empty; otherwise the chunk is non-empty, <= max, >= min unless it is the whole (short) stream, and equals the first bytes of the stream (lossless); a cut before max with data remaining only where the implementation's fingerprint has its low bits zero
+//@ outside: which position is cut (see c06_rabin_pair_* / c06_rabin_step_*, experimental)
 #[kani::proof]
-#[kani::unwind(72)]
+#[kani::unwind(80)]
 #[kani::stub(std::backtrace::Backtrace::capture, crate::error::verif_harness::stub_backtrace_capture)]
-#[kani::stub(std::io::Read::read_to_end, crate::chunker::rabin::verif_harness::ReadToEndModel::read_to_end)]
-pub(crate) fn c06_rabin_pair_small() { pair_check::<0, 68, 3, 65, 68, 0>(64, 64, 66); }
+pub(crate) fn c06_rabin_first_chunk_frag() {
+    const N: usize = 76;
+    let rabin = Rabin64::new_with_polynom(6, &POLY);
+    let data: [u8; N] = kani::any();
+    let len: usize = kani::any();
+    kani::assume(len <= N);
+    let reader = ProbeReader::<N> { data, len, pos: 0 };
+    let mut it = ChunkIter::new(rabin, 64, 64, 72, reader, 0).unwrap();
+    match it.next() {
+        None => assert!(len == 0),
+        Some(Ok(v)) => {
+            let c = v.len();
+            assert!(c >= 1 && c <= 72 && c <= len);
+            assert!(c >= 64 || c == len);
+            let mut i = 0;
+            while i < c { assert!(v[i] == data[i]); i += 1; }
+            if c < 72 && c < len { assert!(it.rabin.hash & 63 == 0); }
+            kani::cover!(c < 72 && c < len, "content-defined cut");
+            kani::cover!(c == 72, "cut at max");
+            kani::cover!(c < 64, "short stream");
+            std::mem::forget(v);
+        }
+        Some(Err(e)) => { std::mem::forget(e); assert!(false); }
+    }
+    kani::cover!(len == 0, "empty stream");
+    std::mem::forget(it);
+}
